@@ -372,4 +372,108 @@ theorem exchange_spec (s : St) :
     obtain ⟨a, ha⟩ := ask_spec s (.rspCmd id)
     simp only [ha]
     cases a <;> simp [ht] <;> exact ⟨_, rfl⟩
+/-! ## which exceptions leave the pieces -/
+
+theorem simpleCall_err (site : Site) (s : St) (e : Exc) (h : (simpleCall site s).1 = .error e) :
+    e = .io 5 ∨ e = .keyboardInterrupt := by
+  obtain ⟨a, _, h2⟩ := simpleCall_spec site s
+  rw [h2] at h
+  cases hr : a.raises with
+  | none => rw [hr] at h; cases h
+  | some e' => rw [hr] at h; cases h; exact raises_cases a e hr
+
+theorem exchange_err (s : St) (e : Exc) (h : (exchange s).1 = .error e) :
+    e = .io 5 ∨ e = .keyboardInterrupt ∨ isCommErr e = true := by
+  unfold exchange at h
+  cases ht : s.target with
+  | none => simp [ht] at h
+  | remote id =>
+    obtain ⟨a, ha⟩ := ask_spec s (.cmdRsp id)
+    simp only [ht, ha] at h
+    cases a <;> simp at h <;> subst h <;> simp [isCommErr]
+  | loc id =>
+    obtain ⟨a, ha⟩ := ask_spec s (.rspCmd id)
+    simp only [ht, ha] at h
+    cases a <;> simp at h <;> subst h <;> simp [isCommErr]
+
+/-- `sense()` raises only device errors, the error of a single target, or the ValueError for an
+argument that is not a RemoteTarget -/
+theorem sense_err (tl : List TgtSpec) (iters : Int) (s : St) (e : Exc) (h : (sense tl iters s).1 = .error e) :
+    e = .io 5 ∨ e = .keyboardInterrupt ∨ e = .unsupportedTarget ∨
+      (e = .value ∧ (tl.length = 1 ∨ tl.any (· == .notTarget) = true)) := by
+  by_cases hnt : tl.any (· == .notTarget) = true
+  · simp only [sense, hnt, if_true] at h
+    cases h; exact Or.inr (Or.inr (Or.inr ⟨rfl, Or.inr rfl⟩))
+  · have hnt' : tl.any (· == .notTarget) = false := by simpa using hnt
+    obtain ⟨_, herr⟩ := sense_spec tl iters s hnt'
+    rcases herr e h with h1 | h1 | ⟨h1, h2⟩
+    · exact Or.inl h1
+    · exact Or.inr (Or.inl h1)
+    · have hl : tl.length = 1 := by simpa using h1
+      cases e <;> simp [isTargetErr] at h2
+      · exact Or.inr (Or.inr (Or.inr ⟨rfl, Or.inl hl⟩))
+      · exact Or.inr (Or.inr (Or.inl rfl))
+
+theorem drvListen_err (site : Site) (s : St) (e : Exc) (h : (drvListen site s).1 = .error e) :
+    e = .io 5 ∨ e = .keyboardInterrupt ∨ e = .unsupportedTarget ∨ e = .brokenLink := by
+  obtain ⟨a, ha⟩ := ask_spec s site
+  simp only [drvListen, ha] at h
+  cases a <;> simp at h <;> subst h <;> simp
+
+/-- `listen()` raises device errors, UnsupportedTargetError, the ValueError for an unknown
+technology, or the CommunicationError a driver raised inside `listen_*` (F30) -/
+theorem listen_err (t : LtSpec) (s : St) (e : Exc) (h : (listen t s).1 = .error e) :
+    e = .io 5 ∨ e = .keyboardInterrupt ∨ e = .unsupportedTarget ∨ e = .brokenLink ∨ (e = .value ∧ t = .other) := by
+  unfold listen at h
+  have hm := simpleCall_err .mute { s with target := .none }
+  rcases hsc : simpleCall .mute { s with target := .none } with ⟨r2, s2⟩
+  rw [hsc] at h hm
+  cases r2 with
+  | error e2 =>
+    simp only at h; cases h
+    rcases hm e rfl with h1 | h1
+    · exact Or.inl h1
+    · exact Or.inr (Or.inl h1)
+  | ok u =>
+    simp only at h
+    have lift : ∀ site, (drvListen site s2).1 = .error e →
+        e = .io 5 ∨ e = .keyboardInterrupt ∨ e = .unsupportedTarget ∨ e = .brokenLink ∨ (e = .value ∧ t = .other) := by
+      intro site hs
+      rcases drvListen_err site s2 e hs with h1 | h1 | h1 | h1
+      · exact Or.inl h1
+      · exact Or.inr (Or.inl h1)
+      · exact Or.inr (Or.inr (Or.inl h1))
+      · exact Or.inr (Or.inr (Or.inr (Or.inl h1)))
+    cases t with
+    | other => simp only at h; cases h; exact Or.inr (Or.inr (Or.inr (Or.inr ⟨rfl, rfl⟩)))
+    | dep =>
+      simp only at h
+      rcases hd : drvListen .listenDep s2 with ⟨r3, s3⟩
+      rw [hd] at h
+      cases r3 with
+      | error e3 => simp only at h; cases h; exact lift .listenDep (by rw [hd])
+      | ok o => cases o with
+        | none => simp at h
+        | some x => simp only at h; split at h <;> cases h
+    | a =>
+      simp only at h
+      rcases hd : drvListen .listenA s2 with ⟨r3, s3⟩
+      rw [hd] at h
+      cases r3 with
+      | error e3 => simp only at h; cases h; exact lift .listenA (by rw [hd])
+      | ok o => cases o <;> simp at h
+    | b =>
+      simp only at h
+      rcases hd : drvListen .listenB s2 with ⟨r3, s3⟩
+      rw [hd] at h
+      cases r3 with
+      | error e3 => simp only at h; cases h; exact lift .listenB (by rw [hd])
+      | ok o => cases o <;> simp at h
+    | f =>
+      simp only at h
+      rcases hd : drvListen .listenF s2 with ⟨r3, s3⟩
+      rw [hd] at h
+      cases r3 with
+      | error e3 => simp only at h; cases h; exact lift .listenF (by rw [hd])
+      | ok o => cases o <;> simp at h
 end NfcVerif.Clf
